@@ -13,6 +13,7 @@ Decided
       shifted probe as 2*max - min (>= its max x); optional matrices are block_diag of the per-probe matrices in input order
   D1  merged params: n_channels_dat = sum over the probes, everything else (sampling rate) from the first probe
   +   (the probe list itself is the caller's, in the caller's order: shared rule of C11)
+  +   S2: the index tables are widened to a 64-bit integer type before the per-probe offset is added (no arithmetic in the stored dtype)
 Not decided: that the x-translation separates degenerate (zero-width) probes; presence combinations of optional files.
 """
 import ast
@@ -236,6 +237,7 @@ def s2_template_data(ctx):
     outs = MI(repo, unroll=2, inline_depth=0).run(f, env={f.params[0]: me})
     ctx.analysed['paths'] += len(outs)
     pairing = {}
+    narrow_all = []
     probs = []
     saved_names = {e[1][1] for kind, val, st in outs for e in st.trace if e[0] == 'save' and is_c(e[1])}
     unknown_saves = any(e[0] == 'save' and not is_c(e[1]) for kind, val, st in outs for e in st.trace)
@@ -259,6 +261,7 @@ def s2_template_data(ctx):
             pending = []
             zs = [x for x in subterms(arr) if is_t(x) and x[1] == 'call' and x[2] == 'zip']
             adds = [x for x in subterms(arr) if is_t(x) and x[1] == 'Add']
+            narrow_ = narrow_all
             if not zs:
                 empties = [x for x in subterms(arr) if x == T('list')]
                 if not empties:
@@ -275,11 +278,22 @@ def s2_template_data(ctx):
                 okp = any(x[3] == C(0) for x in items) and any(x[3] == C(1) for x in items) and len({x[2] for x in items}) == 1
                 if not okp:
                     probs.append('%s: a table is not shifted by the offset of its own probe' % name)
+                # the shift is computed in a WIDE integer type: the tables are stored in whatever dtype the sorter chose (uint8 / int16 happen), and table + offset in that
+                # dtype wraps silently once the merged numbering exceeds its range
+                txt_ = show(a)
+                wide = 'astype' in txt_ and any(w_ in txt_ for w_ in ('int64', 'np.int_', 'name(int)', 'uint64', 'np.intp'))
+                if okp and not wide:
+                    narrow_.append('%s: the per-probe offset is added to the table in its STORED dtype (`%s`): with a narrow stored dtype (uint8, int16) the shifted indices wrap around '
+                                   'before the final cast' % (name, txt_[:70]))
             if not adds:
                 probs.append('%s: tables are concatenated without adding the per-probe offset' % name)
             cat = [x for x in subterms(arr) if is_t(x) and x[1] == 'call' and x[2] == '_concat']
             if not cat:
                 probs.append('%s: shifted tables are not concatenated' % name)
+    if narrow_all:
+        ctx.violated('C12.S2', f, 'shift dtype', sorted(set(narrow_all))[0])
+    elif pairing:
+        ctx.holds('C12.S2', f, 'the index tables are widened to a 64-bit integer type before the per-probe offset is added', 'shift dtype')
     want = {'pc_feature_ind.npy': 'channel_index_offsets', 'template_feature_ind.npy': 'template_offsets'}
     for name, attr in want.items():
         got = pairing.get(name)
